@@ -865,6 +865,21 @@ func c04Encoder(c *Ctx, r *Report) {
 		r.fail("C04-R6-encoder-pairing", "Encode", "", "Encode not found")
 		return
 	}
+	// the hashing and output tail may live in a helper whose result Encode returns (c05.go encodeUnit)
+	if u := c.encodeUnit(); u != nil && len(u.chain) > 0 {
+		if d := c.declOfSSA(u.fn); d != nil {
+			// no output may be written by the callers on the chain
+			for _, caller := range u.chain {
+				for _, ci := range allCalls(caller) {
+					cc := ci.Common()
+					if cc.IsInvoke() && cc.Method.Name() == "Write" && cc.Value.Type().String() == "io.Writer" {
+						r.fail("C04-R6-encoder-pairing", caller.Name()+"/early-output", c.pos(ci.Pos()), "output is written before the tail that computes the checksum")
+					}
+				}
+			}
+			fd = d
+		}
+	}
 	var hashed, written []string
 	crcLast := false
 	order := []string{}
@@ -917,6 +932,35 @@ func c04Encoder(c *Ctx, r *Report) {
 		return true
 	})
 	r.check(okSum, "C04-R6-encoder-pairing", "Encode/crc-value", c.pos(fd.Pos()), "the CRC written is the hash's Sum16", "the value written as CRC is not the Sum16 of the hash")
+	// the pairing above compares what is hashed with what is written by expression; that is sound only
+	// if the bytes cannot change between the two, i.e. the record buffer is private to this call:
+	// nothing Encode reaches uses a sync primitive (pools), a goroutine or a channel.
+	if encFn := c.ssaFn(c.fn(c.fit, "Encode")); encFn != nil {
+		shared := ""
+		nFn := 0
+		for _, fn := range c.reach([]*ssa.Function{encFn}).module() {
+			if !inLib(fn) {
+				continue
+			}
+			nFn++
+			for _, b := range fn.Blocks {
+				for _, ins := range b.Instrs {
+					switch ins.(type) {
+					case *ssa.Go, *ssa.Send, *ssa.Select, *ssa.MakeChan:
+						shared = fn.Name() + " at " + c.pos(ins.Pos())
+					}
+					if call, ok := ins.(ssa.CallInstruction); ok {
+						if cal := call.Common().StaticCallee(); cal != nil && cal.Pkg != nil {
+							if pp := cal.Pkg.Pkg.Path(); pp == "sync" || pp == "sync/atomic" {
+								shared = cal.String() + " in " + fn.Name() + " at " + c.pos(ins.Pos())
+							}
+						}
+					}
+				}
+			}
+		}
+		r.check(shared == "" && nFn > 5, "C04-R6-encoder-pairing", "Encode/private-buffer", c.pos(encFn.Pos()), fmt.Sprintf("%d functions reachable from Encode: no pool, lock, goroutine or channel; the hashed bytes cannot change before they are written", nFn), "Encode reaches "+shared+": the record buffer can be shared with another call (pooled), so the bytes that were hashed need not be the bytes that are written and a successful Encode can produce a file that fails CheckIntegrity")
+	}
 }
 
 // c04VerdictPropagation (R7): an integrity verdict, once produced, reaches the caller. The
